@@ -11,8 +11,10 @@ import (
 	"path/filepath"
 	"strings"
 	"testing"
+	"time"
 
 	"github.com/BlackVectorOps/semantic_firewall/v3/internal/verifshim/vh"
+	"github.com/cockroachdb/pebble"
 	"github.com/cockroachdb/pebble/vfs"
 )
 
@@ -143,6 +145,33 @@ func TestVerifC20(t *testing.T) {
 		return
 	}
 
+	// a REAL, existing database inside a protected directory (only there can a read-only open that
+	// slipped past the check actually succeed): $HOME-style scratch under /root, removed afterwards
+	prot := ""
+	if stale, _ := filepath.Glob("/root/.sfw-verif-c20-*"); len(stale) > 0 {
+		for _, d := range stale { // leftovers of a killed run only (other shards are live right now)
+			if fi, err := os.Stat(d); err == nil && time.Since(fi.ModTime()) > 2*time.Hour {
+				os.RemoveAll(d)
+			}
+		}
+	}
+	if d, err := os.MkdirTemp("/root", ".sfw-verif-c20-"); err == nil {
+		prot = d
+		defer os.RemoveAll(prot)
+		pdb, err := pebble.Open(filepath.Join(prot, "db"), &pebble.Options{})
+		if err != nil {
+			r.Fail("fixture database in %s: %v", prot, err)
+			return
+		}
+		pdb.Close()
+		os.MkdirAll(filepath.Join(prot, "safe"), 0o755)
+		if rel, err := filepath.Rel(fix, prot); err == nil {
+			os.Symlink(rel, filepath.Join(fix, "relToProt")) // relative target: no absolute path on the way
+		}
+	} else {
+		r.Note("cannot create a fixture under /root (%v): the existing-database-in-a-protected-directory bases are skipped", err)
+		r.NotExhaustive("no writable protected directory for the real-database fixture")
+	}
 	segs := []string{".", "..", "safe", "db", "missing", "toEtc", "toUsrLib", "toSafe", "etc", "usr", "root", "etcetera", "usrlocal", "file", "bin", "sbin", "boot", "bootstrap"}
 	maxSeg := 3
 	if vh.Thorough() {
@@ -164,6 +193,11 @@ func TestVerifC20(t *testing.T) {
 		{"rel-etc-entered-through-link", "/etc", "", filepath.Join(fix, "toEtc")},
 		{"rel-usrlib-entered-through-link", "/usr/lib", "", filepath.Join(fix, "toUsrLib")},
 		{"rel-safe-entered-through-link", filepath.Join(fix, "safe"), "", filepath.Join(fix, "toSafe")},
+	}
+	if prot != "" {
+		bases = append(bases,
+			base{"rel-inside-protected-with-real-db", prot, "", ""},
+			base{"through-relative-link-to-protected-real-db", fix, "relToProt/", ""})
 	}
 	origPWD, hadPWD := os.LookupEnv("PWD")
 	defer func() {
